@@ -87,6 +87,7 @@ func checkC05(w *World, r *Report) {
 	checkSizes(w, r)
 	checkLenMinus(w, r)
 	checkNarrowBounds(w, r)
+	checkLookaround(w, r)
 	checkOffsetProvenance(w, r, reach)
 
 	// R05.7
